@@ -1517,6 +1517,9 @@ class AggregateBase(UnitsManaged, Saveable, OpenSystem):
 
         # Storing Hamiltonian and dipole moment matrices
         self.HH = HH
+        # these are site basis matrices again: a later diagonalize() has
+        # work to do
+        self._diagonalized = False
         # Hamiltonian operator
         self.HamOp = Hamiltonian(data=HH)
         # dipole moments
